@@ -330,7 +330,9 @@ func budget(r *vk.Run) time.Duration {
 func main() {
 	r := vk.Start("C06", "model_checking")
 	scenarios := []e1.Scenario{}
-	for _, ctrl := range []string{"none", "zero", "0.0.0.0:60000", "192.168.1.100:0", "192.168.1.100:60000", "10.0.0.7:54321"} {
+	// the last one: the directed broadcast address of the subnet the simulated host's eth0 is on
+	// (what net.Interfaces reports under the model is vs.DefaultIfaces) - a usable IPv4 address like any other
+	for _, ctrl := range []string{"none", "zero", "0.0.0.0:60000", "192.168.1.100:0", "192.168.1.100:60000", "10.0.0.7:54321", "192.168.1.255:60000"} {
 		for _, proto := range []string{"", "udp", "tcp", "TCP", "any", "x"} {
 			// the last two: the fixed bind port coincides with the port of the (default / configured)
 			// broadcast address, and 54321 with the port of the controller at 10.0.0.7:54321
@@ -340,6 +342,9 @@ func main() {
 						for _, nd := range []bool{false, true} {
 							if nd && (proto == "TCP" || proto == "any" || proto == "x" || proto == "") {
 								// NewDevice normalises the protocol to "udp" unless it is "tcp": still UDP
+							}
+							if ctrl == "192.168.1.255:60000" && proto == "tcp" {
+								continue // a TCP connection to a broadcast address cannot be attempted at all (the model, like the kernel, refuses it before anything is observable)
 							}
 							scenarios = append(scenarios, scenario(config{ctrl, proto, bind, bcast, by, nd}))
 						}
@@ -389,7 +394,7 @@ func main() {
 	if r.Worker == "" && r.Replay == "" {
 		e1.Conformance(r)
 	}
-	r.Rule("full cross product of 6 target-controller configurations x 6 protocol strings x 6 bind addresses (two of them with the fixed port equal to the port of the default / configured broadcast address, one equal to a controller's port) x 3 broadcast settings x bystander controller x constructor (2592 configurations), each x 32 operations x controllers {silent, answering} as environment choices; plus every ordered pair (thorough: also every ordered triple over the 12 UDP ones) of 24 reduced configurations {unconfigured, configured} x {udp, tcp} x {no bind, two different local addresses on the same fixed port} x {default, configured broadcast address} as clients used one after the other in one process, each call judged against its own client's configuration; and the 16 fixed-bind-port ones with the bind port already held (UDP and TCP port space) by other sockets of the host (a call may fail without sending, but nothing may leave from another source); distinct = distinct (transport, destination, answered) labels")
+	r.Rule("full cross product of 7 target-controller configurations (one of them the directed broadcast address of the simulated host's own subnet, as net.Interfaces reports it under the model) x 6 protocol strings x 6 bind addresses (two of them with the fixed port equal to the port of the default / configured broadcast address, one equal to a controller's port) x 3 broadcast settings x bystander controller x constructor (2952 configurations), each x 32 operations x controllers {silent, answering} as environment choices; plus every ordered pair (thorough: also every ordered triple over the 12 UDP ones) of 24 reduced configurations {unconfigured, configured} x {udp, tcp} x {no bind, two different local addresses on the same fixed port} x {default, configured broadcast address} as clients used one after the other in one process, each call judged against its own client's configuration; and the 16 fixed-bind-port ones with the bind port already held (UDP and TCP port space) by other sockets of the host (a call may fail without sending, but nothing may leave from another source); distinct = distinct (transport, destination, answered) labels")
 	r.Assume("reference routing function route() in this file, written from the property statement; protocol strings other than exactly \"tcp\" mean UDP")
 	r.Assume("simulated network: source address = bind address, ephemeral port when the bind port is 0")
 	r.Finish()
